@@ -10,7 +10,7 @@ From Coq Require Import ZArith QArith Qcanon List Lia.
 From DV Require Import Base.Field Base.LinAlg Base.QcInst Model.Enums Model.Homog Model.Grid Model.Sampler Model.SamplerQc
   Gen.GridT Gen.GridCtor Gen.GridDerive Model.GridDerive Model.GridDeriveQc Model.ImageOps Model.ImageOpsQc Model.ImageOpsCheck Gen.ImageOpsT
   Model.ImageChain Proofs.C03Resize Proofs.C04Axis Proofs.C04World Proofs.C04Ops Proofs.C04Qc Proofs.C04Gen
-  Proofs.C04Chain Proofs.C04ChainWorld Proofs.C04Tie Proofs.C04Shapes.
+  Proofs.C04Chain Proofs.C04ChainWorld Proofs.C04Tie Proofs.C04Shapes Proofs.C04Sample Model.ItkSpec Model.Resample Gen.SampleT.
 Import ListNotations.
 
 Section Statements.
@@ -568,6 +568,42 @@ Theorem C04_shape_interp3 (ac : bool) (m0 m1 m2 nx ny nz : Z) (im : nimg (K:=K))
 Proof. exact (shape_interp3 K floorK ac m0 m1 m2 nx ny nz im). Qed.
 End SProofsC04Shapesv2.
 End Chains.
+
+(* 17. sampling on another grid (Image.sample(grid): the C05 pipeline, coordinates traced in Gen/SampleT.v) moves data and
+       grid in lock-step: the ramp on the source grid is returned as the same ramp on the TARGET grid inside the source field
+       of view, for every padding argument, both flags, every pair of oriented grids *)
+Section SampleOnGrid.
+Local Open Scope fld_scope.
+Variable K : fld.
+Hypothesis Kf : is_field K.
+Hypothesis Kc : char0 K.
+Variable floorK nearK : K -> Z.
+Theorem C04_ramp_sample2 :
+  forall (p : padarg) (ac : bool) (tn ts tc : nat -> K) (td : nat -> nat -> K) (ss sc : nat -> K) (sd : nat -> nat -> K)
+        (img : list (list K)) (A : list K) (b : K) (J : list K),
+  wf 2 tn ts td -> wf 2 (zsz (sz2 img)) ss sd -> rect2 (zlen (hd [] img)) img -> length J = 2%nat -> length A = 2%nat ->
+  (forall iy ix, (0 <= iy < zlen img)%Z -> (0 <= ix < zlen (hd [] img))%Z ->
+     val2 img iy ix = dot A (gen_pts 2 GRID WORLD (zvec (isizes2 img)) (vtab 2 ss) (vtab 2 sc) (tab 2 2 sd) [of_Z ix; of_Z iy]) + b) ->
+  fov_ok floorK (isizes2 img)
+    (itk_cindex 2 (vtab 2 tn) (vtab 2 ts) (vtab 2 tc) (tab 2 2 td) (zvec (isizes2 img)) (vtab 2 ss) (vtab 2 sc) (tab 2 2 sd) J) ->
+  dp_sample2 floorK nearK Linear p ac (vtab 2 tn) (vtab 2 ts) (vtab 2 tc) (tab 2 2 td) (vtab 2 ss) (vtab 2 sc) (tab 2 2 sd) img J
+  = dot A (gen_pts 2 GRID WORLD (vtab 2 tn) (vtab 2 ts) (vtab 2 tc) (tab 2 2 td) J) + b.
+Proof. exact (ramp_sample2 K Kf Kc floorK nearK). Qed.
+
+Theorem C04_ramp_sample3 :
+  forall (p : padarg) (ac : bool) (tn ts tc : nat -> K) (td : nat -> nat -> K) (ss sc : nat -> K) (sd : nat -> nat -> K)
+        (img : list (list (list K))) (A : list K) (b : K) (J : list K),
+  wf 3 tn ts td -> wf 3 (zsz (sz3 img)) ss sd -> rect3 (zlen (hd [] (hd [] img))) (zlen (hd [] img)) img ->
+  length J = 3%nat -> length A = 3%nat ->
+  (forall iz iy ix, (0 <= iz < zlen img)%Z -> (0 <= iy < zlen (hd [] img))%Z -> (0 <= ix < zlen (hd [] (hd [] img)))%Z ->
+     val3 img iz iy ix = dot A (gen_pts 3 GRID WORLD (zvec (isizes3 img)) (vtab 3 ss) (vtab 3 sc) (tab 3 3 sd) [of_Z ix; of_Z iy; of_Z iz]) + b) ->
+  fov_ok floorK (isizes3 img)
+    (itk_cindex 3 (vtab 3 tn) (vtab 3 ts) (vtab 3 tc) (tab 3 3 td) (zvec (isizes3 img)) (vtab 3 ss) (vtab 3 sc) (tab 3 3 sd) J) ->
+  dp_sample3 floorK nearK Linear p ac (vtab 3 tn) (vtab 3 ts) (vtab 3 tc) (tab 3 3 td) (vtab 3 ss) (vtab 3 sc) (tab 3 3 sd) img J
+  = dot A (gen_pts 3 GRID WORLD (vtab 3 tn) (vtab 3 ts) (vtab 3 tc) (tab 3 3 td) J) + b.
+Proof. exact (ramp_sample3 K Kf Kc floorK nearK). Qed.
+End SampleOnGrid.
+Print Assumptions C04_ramp_sample3.
 
 Print Assumptions C04_steps_affine.
 Print Assumptions C04_ramp_chain_world.
